@@ -13,6 +13,7 @@ import (
 	"pgregory.net/rapid"
 
 	"verifharness/drive"
+	"verifharness/gen"
 	"verifharness/spec"
 )
 
@@ -30,6 +31,37 @@ var engineFaultStats struct {
 
 func genEngineFaultCase(t *rapid.T) engineFaultCase {
 	pc := genVecPlanCase(t)
+	if gen.Chance(t, "clusteredScenario", 30) {
+		// IVF-only engine calls (SetDirectMap, Train) occur only at >= 1000 vectors
+		var first *spec.MergePlan
+		hasWide := false
+		walkPlan(pc.Plan, func(n *spec.MergePlan) {
+			if n.IsLeaf() {
+				if first == nil {
+					first = n
+				}
+				if n.Leaf.VecWide != nil {
+					hasWide = true
+				}
+			}
+		})
+		if !hasWide {
+			// reuse a vector field of the plan if there is one
+			o := spec.ExpectResolved(spec.Resolve(pc.Plan))
+			vw := &spec.VecWideSpec{N: rapid.SampledFrom([]int{1000, 1100}).Draw(t, "cvwN"), Field: "vec", Dim: 2, Metric: "l2_norm", Opt: "recall", Seed: uint32(rapid.IntRange(0, 99).Draw(t, "cvwSeed"))}
+			for f, vf := range o.Vec {
+				vw.Field, vw.Dim, vw.Metric, vw.Opt = f, vf.Dim, vf.Metric, vf.Opt
+				break
+			}
+			for _, leafVec := range []*spec.MergePlan{first} {
+				lo := spec.Expect(leafVec.Leaf)
+				if vf := lo.Vec[vw.Field]; vf != nil {
+					vw.Dim, vw.Metric, vw.Opt = vf.Dim, vf.Metric, vf.Opt
+				}
+			}
+			first.Leaf.VecWide = vw
+		}
+	}
 	if rapid.Bool().Draw(t, "buildScenario") {
 		var leaf *spec.MergePlan
 		walkPlan(pc.Plan, func(p *spec.MergePlan) {
@@ -149,8 +181,23 @@ func runEngineFaultCase(c engineFaultCase) *Violation {
 					v = violation(prop, "merge/fault-swallowed", "%s: the merge returned no error but its file does not open: %v", desc, oerr)
 				} else {
 					v = vectorSegmentCheck(prop, o, want, desc)
+					if v == nil {
+						// a segment reported as complete must also be usable as a merge
+						// input again (its vectors must be reconstructable)
+						p3 := drive.NewPath("c19r")
+						_, _, rerr := drive.Merge([]segment.Segment{o}, []*roaring.Bitmap{nil}, p3, root.ChunkMode, nil, nil)
+						if rerr != nil {
+							v = violation(prop, "merge/fault-swallowed", "%s: the merge returned no error, yet its output cannot be merged again: %v", desc, rerr)
+						} else if o3, oerr := drive.Open(p3); oerr != nil {
+							v = violation(prop, "merge/fault-swallowed", "%s: re-merged output does not open: %v", desc, oerr)
+						} else {
+							v = vectorSegmentCheck(prop, o3, want, desc+" (re-merged)")
+							o3.Close()
+						}
+						os.Remove(p3)
+					}
 					o.Close()
-					if v != nil {
+					if v != nil && v.Signature != "merge/fault-swallowed" {
 						v.Signature = "merge/fault-swallowed"
 						v.Message = desc + ": the merge returned no error, yet: " + v.Message
 					}
